@@ -252,7 +252,7 @@ func (e *Engine) sigCase(p *sim.Plan, st *sim.Step, res *sim.RunResult, keep boo
 	}
 	// the victim learns the author before any key is declared, and later receives the whole key
 	// history in one pull: several versions fast-forwarded at once
-	if st.Id%2 == 0 {
+	if (st.Id/2)%2 == 0 { // (the parity of the id already chooses the API)
 		if _, err := identity.Push(H.Sim, "hub0"); err != nil {
 			res.HarnessErr = "push identity: " + err.Error()
 			return nil, "skipped"
